@@ -8,6 +8,7 @@ import json
 import random
 
 from .. import common as C
+from .. import vmv
 from .. import gen, l1
 
 PID = "C13"
@@ -41,6 +42,11 @@ def run(tier, replay=None):
         c["id"] = f"{c['mode']}/{c['ty']}: " + " ; ".join(op_id(o) for o in c["hist"])
     C.log(f"[{PID}] {len(l1c)} single ops (all), {len(l2c)} of {n2} length-2 histories, {len(sim)} simulated longer")
     dis, skips, st = l1.run_cases(binary, work, cases)
+    # the compiled code on the value machine MSVMV: per-instruction trace validation of the interpreter and
+    # translation validation of the compiler against MSLang (programs outside the machine's fragment are counted)
+    import random as _random
+    vres = vmv.stage(binary, work / "vmv", cases, 500 if tier == "quick" else 5000, _random.Random(rep.seed))
+    vcov = vmv.report(rep, vres, "list/map history")
     byid = {c["id"]: c for c in cases}
     for c in cases:
         if c["rejected"]:
@@ -57,11 +63,11 @@ def run(tier, replay=None):
         rep.violation(f"{d['path']} {d['id']}",
                       f"{d['path']}: history {ops}: model prescribes status={d['exp_status']} lines {exp[max(0,k-3):k+3]} (at line {k}); real binary {got[max(0,k-3):k+3]} exit={d['obs_exit']} {d['obs_fclass']}",
                       dict(case=c["id"], verdict=d, first_diff_line=k, files={"main.ms": c["src"]}, stderr=[o["err"] for o in c["obs"]]))
-    rep.coverage = dict(
+    rep.coverage = dict(**vcov, traces_validated_against_impl=vres["recorded"],
         evaluations=len(cases), distinct_nontrivial=sum(1 for c in cases if len(c["hist"]) >= 2),
         rule="GenHeap.tla: histories over 98 list operations x 3 element types and 64 map operations, on two containers plus a re-pointable/clonable alias, boundary indices -1/0/len-1/len; all single operations, (sample of) all pairs, seeded -simulate histories up to 8/12; all variables observed after every operation; non-trivial = at least two operations",
         samples=[dict(id=c["id"], out=c["obs"][0]["out"][-8:]) for c in cases[:: max(1, len(cases) // 3)][:3]],
-        states=st["states"] + g1.distinct + g2.distinct, transitions=st["transitions"] + g1.generated + g2.generated,
+        states=st["states"] + vres["states"] + g1.distinct + g2.distinct, transitions=st["transitions"] + vres["transitions"] + g1.generated + g2.generated,
         out_of_model=len(skips), rejected_by_compiler=sum(1 for c in cases if c["rejected"]), executions=2 * len(cases),
     )
     rep.assumptions = ["map iteration order is unspecified: keys/values/pairs are observed through len and index_of only",
